@@ -9,6 +9,7 @@ import (
 	"go/ast"
 	"go/constant"
 	"go/token"
+	"sort"
 	"strings"
 )
 
@@ -93,6 +94,90 @@ func constValues(repo, rel string) (map[string]string, []string, error) {
 	return vals, order, nil
 }
 
+// configMethods: what every method of beforeGenesisConfig / afterGenesisConfig returns. Each body must be a single
+// `return <constant expression>` over literals, the file's constants, math.MaxInt32 / math.MaxInt64, * + - and
+// true / false (rendered 1 / 0); anything else fails closed.
+func configMethods(repo, rel string) ([][2]string, error) {
+	_, f, err := ParseFile(repo, rel)
+	if err != nil {
+		return nil, err
+	}
+	vals, _, err := constValues(repo, rel)
+	if err != nil {
+		return nil, err
+	}
+	var eval func(e ast.Expr) (constant.Value, bool)
+	eval = func(e ast.Expr) (constant.Value, bool) {
+		switch x := e.(type) {
+		case *ast.BasicLit:
+			if x.Kind == token.INT {
+				return constant.MakeFromLiteral(x.Value, x.Kind, 0), true
+			}
+		case *ast.Ident:
+			switch x.Name {
+			case "true":
+				return constant.MakeInt64(1), true
+			case "false":
+				return constant.MakeInt64(0), true
+			}
+			if v, ok := vals[x.Name]; ok {
+				return constant.MakeFromLiteral(v, token.INT, 0), true
+			}
+		case *ast.SelectorExpr:
+			if id, ok := x.X.(*ast.Ident); ok && id.Name == "math" {
+				switch x.Sel.Name {
+				case "MaxInt32":
+					return constant.MakeInt64(2147483647), true
+				case "MaxInt64":
+					return constant.MakeInt64(9223372036854775807), true
+				}
+			}
+		case *ast.ParenExpr:
+			return eval(x.X)
+		case *ast.BinaryExpr:
+			l, ok1 := eval(x.X)
+			r, ok2 := eval(x.Y)
+			if ok1 && ok2 && (x.Op == token.MUL || x.Op == token.ADD || x.Op == token.SUB) {
+				return constant.BinaryOp(l, x.Op, r), true
+			}
+		}
+		return nil, false
+	}
+	var out [][2]string
+	for _, d := range f.Decls {
+		fd, ok := d.(*ast.FuncDecl)
+		if !ok || fd.Recv == nil || len(fd.Recv.List) != 1 {
+			continue
+		}
+		recv := ""
+		if st, ok := fd.Recv.List[0].Type.(*ast.StarExpr); ok {
+			if id, ok := st.X.(*ast.Ident); ok {
+				recv = id.Name
+			}
+		}
+		if recv != "beforeGenesisConfig" && recv != "afterGenesisConfig" {
+			continue
+		}
+		if fd.Body == nil || len(fd.Body.List) != 1 {
+			return nil, fmt.Errorf("%s: method %s.%s is not a single return statement", rel, recv, fd.Name.Name)
+		}
+		ret, ok := fd.Body.List[0].(*ast.ReturnStmt)
+		if !ok || len(ret.Results) != 1 {
+			return nil, fmt.Errorf("%s: method %s.%s is not a single return statement", rel, recv, fd.Name.Name)
+		}
+		v, ok := eval(ret.Results[0])
+		if !ok {
+			return nil, fmt.Errorf("%s: method %s.%s returns an expression the translator cannot evaluate", rel, recv, fd.Name.Name)
+		}
+		out = append(out, [2]string{recv + "." + fd.Name.Name, v.ExactString()})
+	}
+	sort.Slice(out, func(i, j int) bool { return out[i][0] < out[j][0] })
+	if len(out) != 14 {
+		return nil, fmt.Errorf("%s: expected 14 config methods (7 per era), found %d", rel, len(out))
+	}
+	return out, nil
+}
+
 func genInterpConsts(repo string) (string, error) {
 	var sb strings.Builder
 	sb.WriteString(Header)
@@ -122,6 +207,19 @@ func genInterpConsts(repo string) (string, error) {
 		"MaxScriptSizeBeforeGenesis", "MaxScriptElementSizeBeforeGenesis", "MaxScriptNumberLengthBeforeGenesis", "MaxPubKeysPerMultiSigBeforeGenesis"}); err != nil {
 		return "", err
 	}
+	cm, err := configMethods(repo, "bscript/interpreter/config.go")
+	if err != nil {
+		return "", err
+	}
+	sb.WriteString("(* bscript/interpreter/config.go: what the methods of the two era configurations return *)\nDefinition config_methods : list (string * Z) := [\n")
+	for i, kv := range cm {
+		sep := ";"
+		if i == len(cm)-1 {
+			sep = ""
+		}
+		fmt.Fprintf(&sb, "  (\"%s\", (%s)%%Z)%s\n", kv[0], kv[1], sep)
+	}
+	sb.WriteString("].\n\n")
 	if err := emit("flag_consts", "bscript/interpreter/scriptflag/scriptflag.go", []string{"Bip16", "StrictMultiSig", "DiscourageUpgradableNops",
 		"VerifyCheckLockTimeVerify", "VerifyCheckSequenceVerify", "VerifyCleanStack", "VerifyDERSignatures", "VerifyLowS", "VerifyMinimalData",
 		"VerifyNullFail", "VerifySigPushOnly", "EnableSighashForkID", "VerifyStrictEncoding", "VerifyBip143SigHash", "UTXOAfterGenesis", "VerifyMinimalIf"}); err != nil {
